@@ -1021,6 +1021,19 @@ class Explorer:
         elif not cond:
             raise Assume()
 
+    def define(self, cond):
+        """constraint that DEFINES fresh variables in terms of existing ones and can be met for every valuation of those (e.g. "r is a
+        nearest integer of t"): added without a feasibility query.  The caller vouches for totality; Concrete checks it on replay"""
+        if isinstance(cond, SymBool):
+            z = cond._reduced_z()
+            if isinstance(z, bool):
+                if not z:
+                    raise Assume()
+                return
+            self._add(z)
+        elif not cond:
+            raise Assume()
+
     def snapshot(self, model=None):
         m = model if model is not None else self._get_model()
         out = {}
@@ -1236,6 +1249,8 @@ class Concrete:
     def assume(self, cond):
         if not cond:
             raise Assume()
+
+    define = assume
 
     def check(self, cond, label, message=''):
         self.checks_reached += 1
